@@ -60,4 +60,9 @@ EncodeLemmas ==
   \* Fits is monotone in the version for every (mode, level) at the capacity thresholds (run-length events rely on it)
   /\ \A mode \in 0..2 : \A e \in {"L","M","Q","H"} : \A v \in 1..39 :
         \A n \in {0, 1, 17, 100, 1000, 3000, 7089} : Fits(mode, e, v, n) => Fits(mode, e, v+1, n)
+  \* anchors typed from ISO 18004 Table 7 (character capacities), independent of the derivation above: the capacity
+  \* that the bit-length formula and the data-codeword table give is exactly the published one
+  /\ \A t \in { <<1,"L",41,25,17>>, <<1,"M",34,20,14>>, <<1,"Q",27,16,11>>, <<1,"H",17,10,7>>,
+                <<40,"L",7089,4296,2953>>, <<40,"M",5596,3391,2331>>, <<40,"Q",3993,2420,1663>>, <<40,"H",3057,1852,1273>> } :
+        \A mode \in 0..2 : Fits(mode, t[2], t[1], t[3 + mode]) /\ ~Fits(mode, t[2], t[1], t[3 + mode] + 1)
 =============================================================================
